@@ -27,7 +27,9 @@ def _c17(tier):
 def _c16(tier):
     hand = harness_names("c16") + re.findall(r"shape_case!\((\w+),", open(os.path.join(VERIF, "kani", "src", "c16.rs")).read())
     slow = {"c16_real_residual_smallint_n3_a", "c16_real_residual_smallint_n3_b", "c16_real_residual_smallint_n3_c",
-            "c16_real_residual_smallint_n3_d", "c16_real_residual_smallint_n2_wide", "c16_complex_residual_smallint_n2"}
+            "c16_real_residual_smallint_n3_d", "c16_real_residual_smallint_n2_wide", "c16_complex_residual_smallint_n2",
+            "c16_complex_residual_fixed_rhs_general", "c16_complex_residual_fixed_rhs_imag_multiplier",
+            "c16_complex_residual_fixed_rhs_real_multiplier"}
     if tier == "quick":
         return [n for n in hand if n not in slow]
     return hand
@@ -37,6 +39,7 @@ PROPS = {}
 
 PROPS["C16"] = {
     "level": "model_checking",
+    "caps": {"quick": {"timeout_s": 600, "mem_gb": 12}, "thorough": {"timeout_s": 5400, "mem_gb": 14}},
     "k": {"quick": _c16("quick"), "thorough": _c16("thorough")},
     "files": ["src/matrix/lu.rs", "src/matrix/linear.rs", "src/matrix/index.rs"],
     "functions": ["ivp::matrix::lu_decomp", "ivp::matrix::lu_decomp_complex", "ivp::matrix::lin_solve",
@@ -294,7 +297,7 @@ for _pid, _key, _extra in (("C05", "c05", ""), ("C08", "c08", ""), ("C09", "c09"
 PROPS["C03"]["r"]["quick"] = PROPS["C03"]["r"]["quick"] + _handler_units("c03", "quick")
 PROPS["C03"]["r"]["thorough"] = PROPS["C03"]["r"]["thorough"] + _handler_units("c03", "thorough")
 PROPS["C03"]["files"] = PROPS["C03"]["files"] + ["src/solve/solout.rs"]
-PROPS["C12"]["outside"] = ["bit-identity of whole runs with/without output options is not decided directly: it follows from (a) the handler never modifies x/y and returns Continue (decided here) and (b) solve_ivp passing t_eval/dense_output/events only to the handler (one-line reading of solve_ivp.rs, listed as an assumption)"]
+PROPS["C12"]["outside"] = ["bit-identity of whole runs with/without output options is not decided by a relational query: it follows from (a) the handler never modifies x/y and returns Continue and (b) solve_ivp configuring and calling the solver identically whatever t_eval/dense_output are -- both decided here (c12_* units, c03_solve_ivp_head) -- plus determinism of the solvers"]
 
 
 def _c04_r(tier):
@@ -309,7 +312,7 @@ _C04_K = _names_from_macro("c04", "c04") + _names_from_macro("c04", "c04_guard")
 PROPS["C04"] = {
     "level": "other",
     "r": {"quick": _c04_r("quick"), "thorough": _c04_r("thorough")},
-    "k": {"quick": [n for n in _C04_K if "dop853" not in n and "back" not in n], "thorough": _C04_K},
+    "k": {"quick": [n for n in _C04_K if "dop853" not in n and "back" not in n and "auto_h" not in n], "thorough": _C04_K},
     "caps": {"quick": {"timeout_s": 900, "mem_gb": 12}, "thorough": {"timeout_s": 3600, "mem_gb": 14}},
     "files": _ST_FILES, "functions": ["RK4/RK23/DOPRI5/DOP853::solve"],
     "explanation": ("Termination is an induction the solver does not run; what is decided are its premises. R (inductive step, every iteration, NaN-free): a rejected trial shrinks |h| by >= 5%, "
@@ -369,7 +372,8 @@ PROPS["C20"] = {
     "level": "model_checking",
     "features": ("python",),
     "target": "kani_py",
-    "k": {"quick": ["c20_grouping_n3_len1", "c20_grouping_n3_len2", "c20_grouping_n4_len2"], "thorough": _names_from_macro("c20", "grouping")},
+    "k": {"quick": ["c20_grouping_n3_len1", "c20_grouping_n3_len2"], "thorough": _names_from_macro("c20", "grouping")},
+    "caps": {"quick": {"timeout_s": 600, "mem_gb": 12}, "thorough": {"timeout_s": 3600, "mem_gb": 30}},
     "files": ["src/python/sparsity.rs"],
     "functions": ["python::sparsity::group_columns (through the verif-hooks forwarder)"],
     "explanation": "Kani/CBMC over the crate built with --features python (PYO3_NO_PYTHON=1): for every sparsity pattern with the stated fixed column lengths, every column gets a group below n_groups and two columns sharing a row never share a group. ONLY the sparsity-grouping clause of C20 is decided; nothing about the Python-visible result is.",
@@ -432,3 +436,11 @@ PROPS["C13"] = {
     "outside": ["bit-for-bit identity of reflected/scaled runs (relational bit-precise queries: no verdict within reach, DESIGN section 3a)", "power-of-two state scaling", "implicit methods beyond Radau's tolerance handling",
                 "event-time mirroring beyond the handler's backward units (C08-C10)"],
 }
+
+
+# solve_ivp head (zero-interval shortcut, what is handed to the handler)
+for _t in ("quick", "thorough"):
+    PROPS["C03"]["r"][_t] = PROPS["C03"]["r"][_t] + [_rh().solve_ivp_head]
+    PROPS["C05"]["r"][_t] = PROPS["C05"]["r"][_t] + [_rh().solve_ivp_head]
+    PROPS["C11"]["r"][_t] = PROPS["C11"]["r"][_t] + [_rh().solve_ivp_head]
+    PROPS["C12"]["r"][_t] = PROPS["C12"]["r"][_t] + [_rh().solve_ivp_head]
